@@ -168,6 +168,13 @@ static std::string step(const std::vector<std::string>& wfull) {
     Obj* u = live(I(1), true);
     if (!u) return "dead";
     union_t c(*u->un);
+    // the target is a live union: ASSIGN into it (alternately copy / move assignment, the latter also exchanges the two gadgets)
+    static unsigned n_uassign = 0;
+    auto tgt = objs.find(I(2));
+    if (tgt != objs.end() && tgt->second.un && I(1) != I(2)) {
+      if (++n_uassign % 2) *tgt->second.un = *u->un; else *tgt->second.un = std::move(c);
+      return "U";
+    }
     put_union(I(2), std::move(c));
     return "U";
   }
